@@ -2,6 +2,7 @@ package main
 
 import (
 	"fmt"
+	"go/types"
 	"sort"
 	"strings"
 
@@ -143,6 +144,54 @@ func e1aborts(mod, which string) {
 		fmt.Printf("== %s: %d aborting paths\n", h.Key, h.Aborts)
 		for _, k := range ks {
 			fmt.Printf("   %3d  %s\n", h.AbortOrigins[k], k)
+		}
+	}
+}
+
+// e1fn <mod> <pkgSuffix> <Type.Method|func>: explores one function (validator mode) and prints each
+// outcome with its facts — a debugging aid.
+func e1fn(mod, pkgSuffix, name string) {
+	e := &Env{overlay: cliOverlay, progs: map[string]*Program{}, models: map[string]*Model{}}
+	m := e.Model(mod)
+	x := NewExplorer(m)
+	var fn *ssa.Function
+	if i := strings.Index(name, "."); i > 0 {
+		pk := m.P.Pkg(pkgSuffix)
+		if pk != nil {
+			if tn, ok := pk.Types.Scope().Lookup(name[:i]).(*types.TypeName); ok {
+				if nt, ok := tn.Type().(*types.Named); ok {
+					fn = methodOf(m, nt, name[i+1:])
+				}
+			}
+		}
+	} else {
+		fn = findFn(m, pkgSuffix, name)
+	}
+	if fn == nil {
+		fmt.Println("function not found")
+		return
+	}
+	var params []Val
+	for i, p := range fn.Params {
+		if i == 0 && fn.Signature.Recv() != nil {
+			if _, isPtr := p.Type().(*types.Pointer); isPtr {
+				params = append(params, &SymPtr{Base: "req", T: p.Type().(*types.Pointer).Elem()})
+			} else {
+				params = append(params, &Sym{N: "req", T: p.Type()})
+			}
+			continue
+		}
+		params = append(params, &Sym{N: p.Name(), T: p.Type()})
+	}
+	x.validatorMode = true
+	outs := x.Explore(fn, params)
+	for i, o := range outs {
+		fmt.Printf("-- outcome %d kind=%v commit=%v loop=%s cut=%v\n   facts: %s\n", i, o.Kind, o.Commit, o.Loop, x.cut, strings.Join(o.St.facts, " "))
+		for _, ev := range o.St.events {
+			fmt.Printf("   ev %s %s\n", ev.Kind, ev.Method)
+		}
+		if len(o.St.notes) > 0 {
+			fmt.Println("   notes: " + strings.Join(o.St.notes, "; "))
 		}
 	}
 }
